@@ -37,6 +37,14 @@ Inductive fmt :=
 | FDropVarUint                                 (* a varint the decoder reads and discards and the
                                                   serializer never writes (Voting, version >= 2) *)
 | FVarBytes (max : N)                          (* ReadVarBytes(r, max, _) / ReadVarString *)
+| FTimeMs                                      (* int64 ns timestamp; "ts % 1e6 > 0" is an error; stored
+                                                  truncated to milliseconds (dpos msg.Version) *)
+| FTailU8List                                  (* optional tail of msg.FilterLoad: nothing left -> empty list;
+                                                  else a varint count and up to count bytes, the loop
+                                                  ending silently at EOF *)
+| FSwallowHead (onfail : bytes) (body : fmt)   (* body starts with a varint count; if reading that count
+                                                  fails the decoder returns nil (dpos ConsensusStatus);
+                                                  [onfail] is what the object then serializes to *)
 | FSkipOpt                                     (* r.Read(make([]byte,1)) with the result ignored *)
 | FSeq (a b : fmt)
 | FCounted (c : cnt) (asint : bool) (bound : option N) (p : pre) (esz : N) (e : fmt)
@@ -98,6 +106,11 @@ Fixpoint loop (de : bytes -> dres) (ic : N) (fuel : nat) (k : N) (bs : bytes)
     end
   end.
 
+(* dtime.Int64ToTime followed by UnixNano on the 64-bit pattern v *)
+Definition ms_norm (v : N) : option N :=
+  if v <? 9223372036854775808 then (if 0 <? v mod 1000000 then None else Some v)
+  else Some ((v + (18446744073709551616 - v) mod 1000000) mod 18446744073709551616).
+
 Definition tagv (nz : bool) (h : bytes) : N :=
   if nz then (if le_val h =? 0 then 0 else 1) else le_val h.
 
@@ -140,6 +153,37 @@ Fixpoint decode (f : fmt) (c : ctx) (bs : bytes) : dres :=
            | None => (Err, 33 + n)
            end
     | None => (Err, 9)
+    end
+  | FTimeMs =>
+    match take 8 bs with
+    | Some (h, t) => match ms_norm (le_val h) with
+                     | Some v => (Ok (VN v, t), 8)
+                     | None => (Err, 8)
+                     end
+    | None => (Err, 8)
+    end
+  | FTailU8List =>
+    match bs with
+    | [] => (Ok (VL [], []), 0)
+    | _ => match varint_dec bs with
+           | Some (n, t) => let (h, t') := take_upto t n in
+                            (Ok (VL (map VN h), t'), 9 + 8 * N.of_nat (length h))
+           | None =>
+             (* a lone discriminant: io.ReadFull of the value reads nothing and
+                returns io.EOF, which the decoder treats as "no tail" *)
+             if (match bs with [d] => 253 <=? d | _ => false end)
+             then (Ok (VL [], []), 9) else (Err, 9)
+           end
+    end
+  | FSwallowHead _ body =>
+    match varint_dec bs with
+    | None => (Ok (VTag 0 VUnit, skipn (varint_fail_consumed bs) bs), 0)
+    | Some _ =>
+      match decode body c bs with
+      | (Ok (v, rest), m) => (Ok (VTag 1 v, rest), m)
+      | (Err, m) => (Err, m)
+      | (Panic, m) => (Panic, m)
+      end
     end
   | FSkipOpt =>
     match bs with
@@ -199,6 +243,9 @@ Fixpoint encode (f : fmt) (c : ctx) (v : value) : bytes :=
   | FFix _, VB b => b
   | FVarUint, VN n => varint_enc n
   | FVarBytes _, VB b => varint_enc (N.of_nat (length b)) ++ b
+  | FTimeMs, VN n => le_enc 8 n
+  | FTailU8List, VL vs => varint_enc (N.of_nat (length vs)) ++ map (fun v => match v with VN n => n | _ => 0 end) vs
+  | FSwallowHead onfail body, VTag t v' => if t =? 0 then onfail else encode body c v'
   | FSkipOpt, _ => [1]
   | FSeq a b, VPair va vb => encode a c va ++ encode b c vb
   | FCounted ck _ _ _ _ e, VL vs =>
@@ -222,6 +269,10 @@ Fixpoint wt (f : fmt) (c : ctx) (v : value) : bool :=
   | FVarUint, VN n => n <? 18446744073709551616
   | FVarBytes max, VB b => (N.of_nat (length b) <=? max) && (N.of_nat (length b) <? 18446744073709551616)
   | FSkipOpt, VUnit => true
+  | FTimeMs, VN n => (n <? 18446744073709551616) && match ms_norm n with Some m => m =? n | None => false end
+  | FTailU8List, VL vs => (N.of_nat (length vs) <? 18446744073709551616) &&
+                          forallb (fun v => match v with VN n => n <? 256 | _ => false end) vs
+  | FSwallowHead _ body, VTag t v' => (t =? 1) && wt body c v'
   | FSeq a b, VPair va vb => wt a c va && wt b c vb
   | FCounted ck asint bound p esz e, VL vs =>
       let n := N.of_nat (length vs) in
@@ -243,7 +294,8 @@ Definition big : N := 4294967296.
 (* least number of bytes a successful decode consumes *)
 Fixpoint minsz (f : fmt) : N :=
   match f with
-  | FUnit | FSkipOpt => 0
+  | FUnit | FSkipOpt | FTailU8List | FSwallowHead _ _ => 0
+  | FTimeMs => 8
   | FFail => big
   | FU w => N.of_nat w
   | FBool _ => 1
@@ -258,10 +310,19 @@ Fixpoint minsz (f : fmt) : N :=
 (* allocation discipline: every loop element consumes at least one byte, and
    every count-sized allocation is guarded by a constant bound small enough
    for makeslice *)
+(* the descriptor begins by reading a varint count *)
+Fixpoint starts_varint (f : fmt) : bool :=
+  match f with
+  | FCounted CVar _ _ _ _ _ => true
+  | FSeq a _ => starts_varint a
+  | _ => false
+  end.
+
 Fixpoint wf_alloc (f : fmt) : bool :=
   match f with
   | FSeq a b | FCase _ _ a b | FCaseGe _ _ a b => wf_alloc a && wf_alloc b
   | FTag _ _ body => wf_alloc body
+  | FSwallowHead _ body => wf_alloc body && starts_varint body
   | FCounted ck _ bound p esz e =>
       (1 <=? N.of_nat (cnt_bytes ck)) && (1 <=? minsz e) && wf_alloc e &&
       match p with
@@ -277,7 +338,9 @@ Fixpoint wf_alloc (f : fmt) : bool :=
 Fixpoint kf (f : fmt) : N :=
   match f with
   | FUnit | FFail | FSkipOpt => 0
-  | FU _ | FBool _ | FFix _ => 1
+  | FU _ | FBool _ | FFix _ | FTimeMs => 1
+  | FTailU8List => 9
+  | FSwallowHead _ body => kf body
   | FVarUint | FDropVarUint => 9
   | FVarBytes _ => 33
   | FSeq a b | FCase _ _ a b | FCaseGe _ _ a b => N.max (kf a) (kf b)
@@ -291,7 +354,9 @@ Fixpoint cf (f : fmt) : N :=
   | FU w => N.of_nat w
   | FBool _ => 1
   | FFix n => N.of_nat n
-  | FVarUint | FDropVarUint => 9
+  | FVarUint | FDropVarUint | FTailU8List => 9
+  | FTimeMs => 8
+  | FSwallowHead _ body => cf body
   | FVarBytes max => 33 + max
   | FSeq a b | FCase _ _ a b | FCaseGe _ _ a b => N.max (cf a) (cf b)
   | FCounted ck _ bound p esz e =>
@@ -306,7 +371,7 @@ Fixpoint cf (f : fmt) : N :=
 (* descriptors whose serializer writes everything the decoder reads *)
 Fixpoint nodrop (f : fmt) : bool :=
   match f with
-  | FDropVarUint => false
+  | FDropVarUint | FSwallowHead _ _ => false
   | FSeq a b | FCase _ _ a b | FCaseGe _ _ a b => nodrop a && nodrop b
   | FCounted _ _ _ _ _ e => nodrop e
   | FTag _ _ body => nodrop body
